@@ -61,6 +61,13 @@ func runC03(w *mc.Worker) {
 		})
 	}
 	sheetsQ := &sheetDom{A: bigs(0, 1, 3, 6, -2), B: bigs(0, 2, -2), X: bigs(0, 2)}
+	runVarSeqSpace(w, "vars-L2", 1, 2, func(c *seqCase, vars map[string]string, bal env.Bal) {
+		judgeSeqCase(w, c, vars, bal, owns, nontriv, true)
+	})
+	runEdgeSeqSpace(w, "edge-L2", 1, 2, func(c *seqCase, bal env.Bal) { judgeSeqCase(w, c, nil, bal, owns, nontriv, true) })
+	runOriginSeqSpace(w, "origin-L2", 1, 2, []string{"x", "a"}, func(c *seqCase, oc *originCase) {
+		judgeSeqCaseX(w, c, nil, oc, owns, nontriv, true, env.Exact)
+	})
 	stage("pow2-w1", "fixed sends through $amt, source+destination weight <= 1; balances and amounts in {0,1,2^63-1,2^63,2^64-1,2^64,2^64+1,2^65}", []string{"fixed"}, 1, 1, 1, pow2Dom(), pow2Dom())
 	if w.Tier == "quick" {
 		stage("send-w2", "fixed sends through $amt, source+destination weight <= 2, depth <= 1; balances {0,1,3,6,-2}^2; amounts {0,1,2,4,7}", []string{"fixed"}, 2, 1, 1, balQ, amtQ)
